@@ -1,6 +1,6 @@
 (* C02 - any history of operations is equivalent to a key->bytes map.  Statements only (partial: see MANIFEST). *)
 From Coq Require Import List ZArith NArith.
-From DOS Require Import Base Store StoreProofs StoreLemmas Mono MonoStep Programs ProgramsProofs Validate PackProofs MaintProofs AddPackProofs ImportProofs C02Proofs.
+From DOS Require Import Base Store StoreProofs StoreLemmas Mono MonoStep Programs ProgramsProofs Validate PackProofs MaintProofs AddPackProofs ImportProofs C02Proofs History.
 Import ListNotations.
 
 Section C02.
@@ -95,6 +95,25 @@ Proof. exact delete_spec. Qed.
 (* every view answers with bytes whose digest is the key asked for *)
 Theorem C02_reads_are_content_addressed : forall w k c, Inv H inflate w -> stored inflate w k = Some c -> H c = k.
 Proof. exact (stored_sound H inflate). Qed.
+(* THE property, as one statement: ANY finite history of add / pack / direct-to-pack (any mode) / import / delete / clean operations,
+   each run as its program from the world the previous one left (with whatever oracles - chunkings, blob encodings, orders - as long
+   as they make sense there: History.pre), ends in a world that satisfies the invariant and in which EVERY key reads back exactly what
+   the key -> bytes map obtained by folding the obvious map updates (History.spec) holds for it *)
+Theorem C02_any_history_is_a_map : forall ops s,
+  Inv H inflate (fst s) -> pending (snd s) = [] -> pre_hist H inflate s ops ->
+  Inv H inflate (fst (run_hist H s ops)) /\
+  forall k, stored inflate (fst (run_hist H s ops)) k = spec_hist H inflate (stored inflate (fst s)) ops k.
+Proof. exact (history_refines H inflate H_inj). Qed.
+
+(* non-vacuity: the empty container satisfies the invariant and a history of operations whose preconditions are trivial is admissible *)
+Example C02_history_nonvacuous :
+  let w0 := {| loose := []; packs := []; sandbox := []; db := [] |} in
+  Inv H inflate w0 /\ pre_hist H inflate (w0, local0) [OAdd 0 [[1%N; 2%N]; [3%N]]; OClean true []; ODelete [H [1%N; 2%N; 3%N]]; OAdd 1 []].
+Proof.
+  cbn zeta. split.
+  - unfold Store.Inv. cbn. repeat split; constructor.
+  - cbn. tauto.
+Qed.
 End C02.
 Print Assumptions C02_views_are_the_map.
 Print Assumptions C02_add_loose_is_put.
@@ -107,3 +126,4 @@ Print Assumptions C02_add_loose_changes_nothing_else.
 Print Assumptions C02_add_to_pack_is_put_all.
 Print Assumptions C02_import_is_put_all.
 Print Assumptions C02_pack_changes_no_view.
+Print Assumptions C02_any_history_is_a_map.
